@@ -97,12 +97,18 @@ func runSolver(ctx context.Context, sp solverSpec, file string, secs int) solveR
 // Discharge runs the portfolio on every obligation (in parallel) and fills in Status/Backend/Secs.
 func (e *Engine) Discharge(obls []*Obligation, outDir string, timeout int, par int, allAgree bool) {
 	os.MkdirAll(outDir, 0o755)
+	if !allAgree && timeout > 2 {
+		e.batchDischarge(obls, filepath.Join(outDir, "batch"), par, 1500) // stage 0 (batch.go)
+	}
 	sem := make(chan struct{}, par)
 	var wg sync.WaitGroup
 	for _, o := range obls {
 		if o.Goal == "true" || o.Guard == "false" {
 			o.Status, o.Backend = "unsat", "trivial"
 			continue
+		}
+		if o.Status == "unsat" {
+			continue // proved in the batch stage
 		}
 		wg.Add(1)
 		sem <- struct{}{}
